@@ -6,11 +6,27 @@ from lib.prop import Prop
 class C03(Prop):
     pid = "C03"
     lean_targets = ["M17.Props.C03"]
-    theorems = []
-    level_text = ""
+    theorems = ["M17.C03.gen_consts", "M17.C03.step_finv", "M17.C03.run_finv", "M17.C03.mid_step", "M17.C03.steady_next_symbol",
+                "M17.C03.frame_delivery", "M17.C03.doStreamSync_spec", "M17.C03.step_dcd_on"]
+    level_text = ("PARTIAL proof. Lean 4 theorems about the control skeleton of M17Demodulator::operator() (M17/Model/Demod.lean: the seven-state "
+                  "sync/frame machine, its counters, the symbol-sampling schedule and the framer index, with every analog quantity — correlator "
+                  "triggers, carrier-detect decisions, clock estimates, Viterbi cost, decoder state — an arbitrary per-sample event), for ALL event "
+                  "sequences: (run_finv, induction over the sample history) the framer index is even, below 368, and non-zero only while a frame is "
+                  "being collected, so every 368-soft-bit frame handed to the decoder is 184 consecutive symbols of one FRAME episode; "
+                  "(frame_delivery) a frame is delivered only by the 184th symbol and leaves the framer empty; (steady_next_symbol, induction "
+                  "over the 90 samples with an explicit invariant) after a completed stream frame, whether the next sync word is found early, "
+                  "late or missed altogether (coasting), no symbol is taken for 89 samples and the 90th sample takes the first symbol of the next "
+                  "frame at the unchanged sample index — exactly the 8 sync symbols are skipped, nothing lost, nothing taken twice. The "
+                  "skeleton is tied to the code by trace inclusion: every observed per-sample transition of the real demodulator's public state "
+                  "(clean, noisy, corrupted and history runs) must be a transition of the model under some event. NOT proved: that the analog "
+                  "estimators deliver the right soft bits (matched filter, Kalman clock, deviation/offset, LLR) — explored end to end: "
+                  "transmitter baseband x channel envelope x histories through the real demodulator, oracle = after 8 consecutive bit-exact "
+                  "frames every following frame exactly once, in order, bit-exact, through the EOS frame; reported LSF equals the transmitted one.")
     design_ref = "DESIGN.md §5 C03"
-    level_note = ""
-    technique = ""
+    level_note = ("Trusted: Lean kernel; the hand-written skeleton tied by trace inclusion (existential search over a finite candidate set of event "
+                  "records per sample); constants regenerated from the header by dump_tables.cpp; Blaze stand-in; the C++ transmitter as signal "
+                  "source (C13); windowed-sinc resampler of the harness for delay/ppm. Axioms: propext, Classical.choice, Quot.sound only.")
+    technique = "Lean 4 proof (invariants by induction over all event histories of the demodulator's control skeleton) + trace-inclusion correspondence with the real demodulator + end-to-end channel/history exploration with a payload oracle"
     rule = ("transmissions of the repository's transmitter (random audio -> codec2 payloads, random callsigns, CAN) x gain 0.3..3.5 x dc +-0.03 x "
             "noise sigma 0..0.005 x sub-sample delay x +-200 ppm (windowed-sinc resampling) x lead-in history {none, zeros, noise, constant, tone, "
             "earlier transmission} x lengths 20..300 frames; oracle from the transmitted payload list; distinct = distinct parameter tuples; "
@@ -84,9 +100,53 @@ class C03(Prop):
                                 {"stream": "rx", "params": p, "src": src, "dst": dst, "can": can, "frames": nfr, "problems": res["problems"][:5],
                                  "ops_file": demodlib.save_ops([ln]), "sent_payloads_file": demodlib.save_ops([" ".join(map(str, x)) for x in sent])})
 
+    def traces(self, ctx, demod, mod, n):
+        """trace inclusion: observed transitions of the real demodulator vs the control skeleton"""
+        rng = ctx.rng
+        nfr = 30
+        audio = [rng.randrange(-8000, 8000) for _ in range(320 * nfr)]
+        tx, _, _ = demodlib.transmission(ctx, mod, "W1AW", "N0CALL", 5, audio)
+        a2 = [rng.randrange(-8000, 8000) for _ in range(320 * 6)]
+        prev, _, _ = demodlib.transmission(ctx, mod, "K9XYZ", "", 3, a2)
+        for trial in range(n):
+            p = {"gain": rng.choice([300, 1000, 3500]), "dc": rng.randrange(-300, 300), "sigma": rng.choice([0, 0, 50, 500, 2000]), "delay": rng.randrange(1000),
+                 "ppm": rng.randrange(-200, 200), "lead": rng.randrange(6), "leadn": rng.choice([0, 500, 5000, 20000]), "level": rng.choice([0, 100, 3000]),
+                 "seed": rng.randrange(10 ** 6), "app": 2}
+            if trial == 0:
+                p.update(gain=1000, dc=0, sigma=0, delay=0, ppm=0, lead=0, leadn=0)
+            s2 = list(tx)
+            if trial % 2:
+                for _ in range(rng.randrange(1, 10)):
+                    i = rng.randrange(len(s2)); ln_ = rng.randrange(1, 6000)
+                    kind = rng.random()
+                    for j in range(i, min(len(s2), i + ln_)):
+                        s2[j] = 0 if kind < 0.4 else (rng.randrange(-32768, 32768) if kind < 0.8 else -s2[j])
+            pre = (prev[:rng.randrange(500, len(prev))] + [0] * rng.choice([0, 77, 4803])) if trial % 3 == 2 else []
+            ln, rep, rc, err = demodlib.run_rx(ctx, demod, p, pre + s2)
+            ctx.count(("trace", tuple(sorted(p.items())), trial), nontrivial=True)
+            if rc != 0 or not rep.startswith("demod_trace"):
+                ctx.violate(f"trace:abort:{core.first_frame(err)}", f"demodulator aborted while tracing: {core.first_err_line(err)}",
+                            {"stream": "trace", "params": p, "ops_file": demodlib.save_ops([ln]), "stderr": err[-2000:]})
+                continue
+            out = ctx.run_model([rep])[0]
+            f = out.split()
+            if f[0] == "ok":
+                ctx.traces += 1
+                ctx.stat("trace:transitions-explained", int(f[1]))
+                ctx.stat("trace:frames", int(f[2]))
+                ctx.stat("trace:symbols", int(f[3]))
+            else:
+                # the skeleton no longer describes the code: look for a concrete failing input with the end-to-end oracle (done by explore());
+                # if it finds none this stays a broken tie
+                ctx.violate("trace:tie", f"an observed transition of the demodulator is not a transition of the control skeleton: {out[:600]}",
+                            {"stream": "trace", "params": p, "ops_file": demodlib.save_ops([ln]), "model_reply": out[:3000],
+                             "broken": "trace inclusion M17.Demod.follow (theorems M17.C03.run_finv / steady_next_symbol no longer speak about this code)"},
+                            concrete=False)
+
     def run(self, ctx):
         demod, mod = demodlib.drivers()
         quick = ctx.tier == "quick"
+        self.traces(ctx, demod, mod, 8 if quick else 60)
         self.explore(ctx, demod, mod, 10 if quick else 150, [20, 40, 60, 120] if quick else [20, 40, 60, 120, 300])
 
 
